@@ -52,3 +52,8 @@ PROP = dict(
                  "legacy format: serialized metadata shorter than 2^31 bytes (forced: borsh string length and uint32 header size)",
                  "signatures are 64 bytes (Go type [64]byte)"],
 )
+
+# GoLite (DESIGN.md section 10a)
+PROP["technique"] += " + searchEytzinger, eytzinger, getCleanSet, prefixToUint16, uint16ToPrefix of both packages translated on every run (GoLite) and proved equal to the model's bsearch / eytz / clean / prefix"
+PROP["level_text"] += "; the bucketteer leaf functions of both packages are translated from the Go source on every run and proved to be the model's functions (C05_translated_* theorems)"
+PROP["trusted"] = ['translator gen/golite.go (Go leaf functions -> terms of the GoLite fragment, re-run on every check) and the semantics coq/GoLite.v (fixed-width wrap-around, panics on bad index / slice / shift / division, fuel for loops and calls; capacity identified with length; out-parameters for slices written through; aliasing of two arguments not detected) - DESIGN.md section 10a; exercised by the vm_compute examples of the property file'] + list(PROP.get("trusted", []))
